@@ -31,6 +31,7 @@ func TestVerifWait(t *testing.T) {
 		var waiters []*waiter
 		queued := map[int]bool{} // waiter ids whose marker is in v.pending
 		val := 0
+		nomarker := 0
 		nops := 10 + r.intn(vscale(60, 120))
 		drain := func(n int) {
 			if n > len(v.pending) {
@@ -72,7 +73,7 @@ func TestVerifWait(t *testing.T) {
 			out = append(out, "-5")
 			for _, id := range expect {
 				w := waiters[id]
-				deadline := time.Now().Add(5 * time.Second)
+				deadline := time.Now().Add(2 * time.Second)
 				for !w.done.Load() && time.Now().Before(deadline) {
 					runtime.Gosched()
 					time.Sleep(20 * time.Microsecond)
@@ -85,7 +86,7 @@ func TestVerifWait(t *testing.T) {
 				delete(queued, id)
 			}
 			// barrier: nobody whose marker is still queued may have returned
-			time.Sleep(50 * time.Microsecond)
+			time.Sleep(500 * time.Microsecond)
 			for id := range queued {
 				if waiters[id].done.Load() {
 					tr.viol(fmt.Sprintf("C20: waiter %d returned before the batch with its marker was applied", id))
@@ -112,9 +113,12 @@ func TestVerifWait(t *testing.T) {
 					v.s.Wait()
 					w.done.Store(true)
 				}()
-				deadline := time.Now().Add(5 * time.Second)
+				deadline := time.Now().Add(300 * time.Millisecond)
 				for len(v.s.writeChan) == before && time.Now().Before(deadline) {
 					runtime.Gosched()
+				}
+				if len(v.s.writeChan) == before {
+					nomarker++
 				}
 				v.pull()
 				queued[w.id] = true
@@ -137,6 +141,7 @@ func TestVerifWait(t *testing.T) {
 				tr.viol(fmt.Sprintf("C20: waiter %d never returned", w.id))
 			}
 		}
+		_ = nomarker
 		v.dump()
 		v.s.Close()
 	}
